@@ -298,6 +298,14 @@ class ExprMixin:
 
     def exc_message(self, ref, st):
         s = st.get(ref)
+        if ref.cls == "exc:KeyError":
+            # str(KeyError(k)) is repr(k) - "'a'" for the key 'a' - not the key itself
+            a_ = s.get("args", ())
+            if len(a_) == 1 and (isinstance(a_[0], (str, int)) or a_[0] is None):
+                return repr(a_[0])
+            return "" if len(a_) == 0 else None
+        if isinstance(ref.cls, ClassInfo) and ref.cls.find_method("__str__") is not None:
+            return None                     # a user-defined __str__: the text is not modelled here (callers use an unconstrained string)
         if "__msg__" in s:
             return s["__msg__"]
         args = s.get("args", ())
@@ -390,6 +398,14 @@ class ExprMixin:
                             t = z3.If(o.t == cst, z3.StringVal(vals[mname]), t)
                         return [("val", Sym("str", simp(t)), st)]
                     raise Unsupported(f"enum value of non-string enum {o.cls.key} ({sample!r})")
+                if name == "name":
+                    for mname, cst in consts.items():
+                        if z3.eq(simp(o.t), cst):
+                            return [("val", mname, st)]
+                    t = z3.StringVal("?")
+                    for mname, cst in consts.items():
+                        t = z3.If(o.t == cst, z3.StringVal(mname), t)
+                    return [("val", Sym("str", simp(t)), st)]
                 m = o.cls.find_method(name)
                 if m is not None:
                     return [("val", FuncRef(m, bound=o), st)]
@@ -588,6 +604,24 @@ class ExprMixin:
             return self.then(self.ev_seq([e.left, e.right], st), u)
         def bo(vals, s):
             a, b = self.unopt(s, vals[0]), self.unopt(s, vals[1])
+            if isinstance(e.op, (ast.Div, ast.FloorDiv, ast.Mod)) and not isinstance(a, str) and not is_sym(a, "str"):
+                # x / 0, x // 0, x % 0 raise ZeroDivisionError (z3's division is total: the case must be split off explicitly)
+                if isinstance(b, (int, float)) and not isinstance(b, bool):
+                    if b == 0:
+                        return self.raise_ext(s, "ZeroDivisionError", "division by zero")
+                elif is_sym(b, "int") or is_sym(b, "real"):
+                    out = []
+                    alive = None
+                    for zero, s_ in self.branch(s, b.t == 0):
+                        if zero:
+                            out.extend(self.raise_ext(s_, "ZeroDivisionError", "division by zero"))
+                        else:
+                            alive = s_
+                    if alive is None:
+                        return out
+                    r = ops.binop(alive, e.op, a, b)
+                    self.hooks.on_binop(self, alive, e, a, b, r)
+                    return out + [("val", r, alive)]
             r = ops.binop(s, e.op, a, b)
             self.hooks.on_binop(self, s, e, a, b, r)
             return [("val", r, s)]
